@@ -199,6 +199,11 @@ class SimGateway:
             status = b.get("status", 0x21)
         ch = self.channels.get(cid)
         to = ch.ctrl if ch is not None and via[0] == "udp" else None
+        if k == "foreign":
+            # a ConnectionStateResponse for another channel (e.g. the delayed answer to a heartbeat of the previous connection)
+            # instead of the answer to this request
+            self._reply(via, W.connstate_response((cid + 7) & 0xFF or 1, 0), lat=b.get("lat"), to=to)
+            return
         self._reply(via, W.connstate_response(cid, status), lat=b.get("lat"), to=to)
 
     def _disconnect(self, body, via):
